@@ -15,7 +15,7 @@ CHECKS = {
  "C01": dict(level="exploration", sec="4 C01", tech="runtime monitoring: ground-truth occupancy monitor over random task-level histories, thread-level chaos/one-preemption sweep, Miri",
    text="Random hostile histories (faults, cancellation at every suspension point, take/retain) of the real pool under a director that controls every await point; an occupancy monitor built from constructor/destructor/manager-call ground truth asserts the limit at every create call, admission and hand-out. Held on the executions observed, not a proof.",
    note="Trusts tokio's semaphore below hook granularity except where Miri/TSan runs reach it; resize/close are excluded by the property's own precondition."),
- "C02": dict(level="exploration", sec="4 C02", tech="runtime monitoring: quiescence oracle + public-API capacity probe over random fault histories",
+ "C02": dict(level="exploration", sec="4 C02", tech="runtime monitoring: quiescence oracle + public-API capacity probe over random fault histories (managed pool; the get() family of the unmanaged pool as well), thread-level sweep, chaos and full-speed race rounds",
    text="At every scheduler quiescent point each blocked getter must be justified by exhausted ground-truth capacity; every history ends with a capacity probe through the public API; non-injected panics are violations.",
    note="Unbounded liveness restated as bounded progress at quiescence."),
  "C03": dict(level="fault_enumeration", sec="4 C03", tech="runtime monitoring: abandonment matrix (suspension point x abandonment kind x pool state) with differential status/ground-truth oracle",
